@@ -123,7 +123,9 @@ theorem ad_seg (c : ADCfg) (hc : ADOk c) (B t0 : Nat) : ∀ (ops : List Op) (s :
       simp only [Op.time] at hm1 hm2
       simp only [AD.admitted]
       exact ih _ l k hr' (by simp [AD.step, AD.failure, hl]) h0 (MonoOps.weaken hm1 hm2)
-        (by simpa [AD.step, AD.failure] using hpot)
+        (by
+          have := Nat.min_le_left s.tok (c.cap (c.dec s.p))
+          simp only [AD.step, AD.failure]; omega)
 
 theorem ad_bucketOK (c : ADCfg) (hc : ADOk c) (B : Nat) (hB : c.cap c.pmax ≤ B) :
     ∀ (ops : List Op) (s : AD), s.InRange c → s.tok ≤ B →
@@ -172,7 +174,9 @@ theorem ad_bucketOK (c : ADCfg) (hc : ADOk c) (B : Nat) (hB : c.cap c.pmax ≤ B
     | fail t =>
       simp only [AD.admitted]
       simp only [Op.time] at hle hm2
-      exact ih _ hr' (by simpa [AD.step, AD.failure] using hs)
+      exact ih _ hr' (by
+          have := Nat.min_le_left s.tok (c.cap (c.dec s.p))
+          simp only [AD.step, AD.failure]; omega)
         (fun l hl => MonoOps.weaken (hle l (by simpa [AD.step, AD.failure] using hl)) hm2)
         (fun _ => MonoOps.weaken (Nat.zero_le _) hm2)
 
